@@ -1,4 +1,4 @@
-from contracts import errs
+from contracts import errs, exitcode
 
 def build(tier):
-    return dict(targets=errs.targets_c13(tier), assumptions=[], trusted_base=[])
+    return dict(targets=errs.targets_c13(tier) + exitcode.targets(tier), assumptions=[], trusted_base=[])
